@@ -21,7 +21,8 @@ RULE = ("merge: 1-12 records over 1-4 ids (ids in random, unsorted order), 0-3 c
         "1-6 ballot ids repeated across and within contests, declared header count equal to / different from the "
         "number of contest lines, rare repeated candidates, malformed stream (empty input, empty/non-numeric first "
         "cell, short rows); raire_file: same rows written with csv.writer to a real temporary file (cells with "
-        "commas, quotes, blanks); non-trivial = some id occurs in >= 2 records; distinct = distinct canonical input")
+        "commas, quotes, blanks); in a fifth of the raire / raire_file cases candidate, ballot and contest identifiers "
+        "with letters outside ASCII ('José' next to 'Jos', 'Köln-7' next to 'Kln-7'); non-trivial = some id occurs in >= 2 records; distinct = distinct canonical input")
 EXHAUSTIVE = {"quick": False, "thorough": False}
 
 
@@ -55,7 +56,9 @@ def corpus():
         {"op": "raire", "rows": [["x"]], "phantom": False, "int_cands": False},
         {"op": "raire", "rows": [["7"]], "phantom": False, "int_cands": False},
         {"op": "raire_file", "rows": [["1"], ["Contest", "c", "2", "a", "b"], ["c"]]},
-    ]
+    ] + ([{"op": "raire_file", "rows": [["1"], ["Contest", "Bezirk-ä", "3", "José", "Jos", "Zoë"],
+                                        ["Bezirk-ä", "Köln-7", "José", "Zoë", "Jos"], ["Bezirk-ä", "Kln-7", "Zoë"],
+                                        ["Bezirk-ä", "Köln-7", "Jos", "José"]]}] if NONASCII_OK else [])
 
 
 # ------------------------------------------------------------------------------------------ generators
@@ -103,17 +106,37 @@ def gen_merge(rng):
 
 
 ODD_CELLS = ["A,B", 'say "x"', " 17", "17 ", "", "a b"]
+# identifiers with letters outside ASCII, next to what they become when such letters are dropped or mis-decoded
+ACCENT_CANDS = ["José", "Jos", "Zoë", "Zo", "JosÃ©"]
+ACCENT_BIDS = ["Köln-7", "Kln-7", "b-é"]
+ACCENT_CIDS = ["Bezirk-ä", "Bezirk-"]
+
+
+def _text_files_hold(s):
+    """can a text file opened the default way (as from_raire_file opens its input) hold `s`?"""
+    import locale
+    try:
+        enc = locale.getpreferredencoding(False)
+        return s.encode(enc).decode(enc) == s
+    except Exception:
+        return False
+
+
+NONASCII_OK = _text_files_hold("".join(ACCENT_CANDS + ACCENT_BIDS + ACCENT_CIDS))
 
 
 def gen_raire(rng, file_p=0.35):
     ncon = rng.randint(1, 3)
-    cids = rng.sample(["339", "3", "C1", "Contest", "17"], ncon)
     odd = rng.chance(0.15)
+    accents = NONASCII_OK and rng.chance(0.2)        # names of people and places, as a real export has them
+    cids = rng.sample(["339", "3", "C1", "Contest", "17"] + (ACCENT_CIDS if accents else []), ncon)
     cand_of = {}
     rows = []
     for c in cids:
         nc = rng.randint(2, 6)
-        pool = ["15", "16", "17", "18", "45", "2", "007"] + (ODD_CELLS if odd else [])
+        pool = ["15", "16", "17", "18", "45", "2", "007"] + (ODD_CELLS if odd else []) + (ACCENT_CANDS if accents else [])
+        if accents and rng.chance(0.5):
+            pool = ACCENT_CANDS + ["17", "2"]
         cand_of[c] = rng.sample(pool, nc)
     declared = ncon
     u = rng.random()
@@ -129,8 +152,8 @@ def gen_raire(rng, file_p=0.35):
     rows.append(first)
     for c in cids:
         rows.append(["Contest", c, str(len(cand_of[c]))] + cand_of[c])
-    bids = rng.sample(["99813_1_1", "99813_1_3", "99813_1_6", "7", "b-2", "1"] + ([" 7", "x,y"] if odd else []),
-                      rng.randint(1, 6))
+    bids = rng.sample(["99813_1_1", "99813_1_3", "99813_1_6", "7", "b-2", "1"] + ([" 7", "x,y"] if odd else [])
+                      + (ACCENT_BIDS if accents else []), rng.randint(1, 6))
     once = rng.chance(0.4)                   # each (contest, ballot id) at most once: only cross-contest merging
     seen = set()
     for _ in range(rng.randint(0, 15)):
